@@ -454,4 +454,100 @@ theorem pure_computes (labels : List String) : ∀ s ∈ computes labels, s.pure
   obtain ⟨a, _, rfl⟩ := hs
   rfl
 
+/-! ### order of the stage labels in the source -/
+
+theorem orderedFrom_sound (calls : List CallRow) : ∀ (labels : List String) (lo : Nat),
+    orderedFrom calls lo labels = true →
+    ∀ (a b : Nat) (la lb : String) (ia ib : Nat), a < b → labels[a]? = some la → labels[b]? = some lb →
+      findCall calls la = some ia → findCall calls lb = some ib → lo ≤ ia ∧ ia < ib := by
+  -- auxiliary: every found label of the list lies at or above `lo`
+  have lower : ∀ (labels : List String) (lo : Nat), orderedFrom calls lo labels = true →
+      ∀ (b : Nat) (lb : String) (ib : Nat), labels[b]? = some lb → findCall calls lb = some ib → lo ≤ ib := by
+    intro labels
+    induction labels with
+    | nil => intro lo _ b lb ib hb; simp at hb
+    | cons l rest ih =>
+      intro lo h b lb ib hb hf
+      simp only [orderedFrom] at h
+      cases b with
+      | zero =>
+        simp at hb; subst hb
+        rw [hf] at h
+        simp only [Bool.and_eq_true, decide_eq_true_eq] at h
+        exact h.1
+      | succ b =>
+        simp at hb
+        cases hl : findCall calls l with
+        | none => rw [hl] at h; exact ih lo h b lb ib hb hf
+        | some i =>
+          rw [hl] at h
+          simp only [Bool.and_eq_true, decide_eq_true_eq] at h
+          have := ih (i + 1) h.2 b lb ib hb hf
+          omega
+  intro labels
+  induction labels with
+  | nil => intro lo _ a b la lb ia ib _ ha; simp at ha
+  | cons l rest ih =>
+    intro lo h a b la lb ia ib hab ha hb hfa hfb
+    simp only [orderedFrom] at h
+    cases b with
+    | zero => omega
+    | succ b =>
+      simp at hb
+      cases a with
+      | zero =>
+        simp at ha; subst ha
+        rw [hfa] at h
+        simp only [Bool.and_eq_true, decide_eq_true_eq] at h
+        have := lower rest (ia + 1) h.2 b lb ib hb hfb
+        exact ⟨h.1, by omega⟩
+      | succ a =>
+        simp at ha
+        cases hl : findCall calls l with
+        | none => rw [hl] at h; exact ih lo h a b la lb ia ib (by omega) ha hb hfa hfb
+        | some i =>
+          rw [hl] at h
+          simp only [Bool.and_eq_true, decide_eq_true_eq] at h
+          have := ih (i + 1) h.2 a b la lb ia ib (by omega) ha hb hfa hfb
+          exact ⟨by omega, this.2⟩
+
+theorem orderedFrom_mono (calls : List CallRow) : ∀ (labels : List String) (lo lo' : Nat), lo' ≤ lo →
+    orderedFrom calls lo labels = true → orderedFrom calls lo' labels = true := by
+  intro labels
+  induction labels with
+  | nil => intro lo lo' _ _; rfl
+  | cons l rest ih =>
+    intro lo lo' hle h
+    simp only [orderedFrom] at h ⊢
+    cases hl : findCall calls l with
+    | none => rw [hl] at h; exact ih lo lo' hle h
+    | some i =>
+      rw [hl] at h
+      simp only [Bool.and_eq_true, decide_eq_true_eq] at h ⊢
+      exact ⟨by omega, h.2⟩
+
+/-- a stage list that is ordered like the source stays so when stages are left out (option variants) -/
+theorem orderedFrom_sublist (calls : List CallRow) {l₁ l₂ : List String} (hs : l₁.Sublist l₂) :
+    ∀ lo, orderedFrom calls lo l₂ = true → orderedFrom calls lo l₁ = true := by
+  induction hs with
+  | slnil => intro lo h; exact h
+  | cons a _ ih =>
+    intro lo h
+    simp only [orderedFrom] at h
+    cases hl : findCall calls a with
+    | none => rw [hl] at h; exact ih lo h
+    | some i =>
+      rw [hl] at h
+      simp only [Bool.and_eq_true, decide_eq_true_eq] at h
+      exact orderedFrom_mono calls _ (i + 1) lo (by omega) (ih (i + 1) h.2)
+  | cons_cons a _ ih =>
+    intro lo h
+    simp only [orderedFrom] at h ⊢
+    cases hl : findCall calls a with
+    | none => rw [hl] at h; exact ih lo h
+    | some i =>
+      rw [hl] at h
+      simp only [Bool.and_eq_true, decide_eq_true_eq] at h ⊢
+      exact ⟨h.1, ih (i + 1) h.2⟩
+
 end PolyplyVerif.Proofs.Output
